@@ -276,11 +276,46 @@ LEGAL_SPECIAL = ["self", "whatever", "_", "__", "_x", "x_1", "1", "007", "1x", "
                  "compute_early", "expression", "other", "args", "inner", "n", "base", "value", "left", "right"]
 
 
+_API_NAMES = None
+
+
+def api_names():
+    """Names the library itself uses: parameters of every public callable and attribute names of live objects.
+    A keyword-argument or attribute clash can only happen with one of these, whatever they are called."""
+    global _API_NAMES
+    if _API_NAMES is None:
+        import inspect
+        import smoothmath
+        import smoothmath.expression as sx
+        found = set()
+        classes = [getattr(smoothmath, n) for n in smoothmath.__all__] + [getattr(sx, n) for n in sx.__all__]
+        for cls in classes:
+            for attr, val in list(vars(cls).items()) + [("__init__", getattr(cls, "__init__", None))]:
+                if callable(val):
+                    try:
+                        found.update(inspect.signature(val).parameters)
+                    except (TypeError, ValueError):
+                        pass
+        try:
+            x = sx.Variable("x")
+            objs = [x, sx.Constant(1), sx.Add(x, x), sx.Minus(x, x), sx.NthPower(x, 2), sx.Exponential(x), smoothmath.Point(x=1),
+                    smoothmath.Partial(x, "x"), smoothmath.Derivative(x), smoothmath.Differential(x),
+                    smoothmath.LocatedDifferential(x, smoothmath.Point(x=1))]
+            for o in objs:
+                found.update(vars(o))
+        except Exception:  # noqa
+            pass
+        ok = sorted(n for n in found if n and all(c.isalnum() or c == "_" for c in n))
+        _API_NAMES = ok or ["self"]
+    return _API_NAMES
+
+
 def legal_names():
     word = st.characters(categories=["Lu", "Ll", "Lt", "Lm", "Lo", "Nd"], include_characters="_")
     return st.one_of(
         st.sampled_from(NAMES),
         st.sampled_from(LEGAL_SPECIAL),
+        st.sampled_from(api_names()),
         st.text(alphabet=st.sampled_from("abcxyz_019"), min_size=1, max_size=6),
         st.text(alphabet=word, min_size=1, max_size=4),
     )
